@@ -3,6 +3,7 @@ package circl
 
 import (
 	"crypto/cipher"
+	"errors"
 	"io"
 
 	bls12381 "github.com/cloudflare/circl/ecc/bls12381"
@@ -18,7 +19,15 @@ type G2Elt struct{ inner bls12381.G2 }
 func (p *G2Elt) MarshalBinary() (data []byte, err error) { return p.inner.BytesCompressed(), nil }
 
 // UnmarshalBinary populates the point from a compressed point representation.
-func (p *G2Elt) UnmarshalBinary(data []byte) error { return p.inner.SetBytes(data) }
+func (p *G2Elt) UnmarshalBinary(data []byte) error {
+	// circl reads an uncompressed-size window as soon as the compression bit is
+	// clear (also for the infinity prefix, where it does not check the length):
+	// refuse buffers that are too short for the form they announce.
+	if len(data) == 0 || (data[0]&0x80 == 0 && len(data) < bls12381.G2Size) {
+		return errors.New("bls12381.G2: input too short")
+	}
+	return p.inner.SetBytes(data)
+}
 
 func (p *G2Elt) String() string { return p.inner.String() }
 
